@@ -1,3 +1,7 @@
 import MtailVerif.Props.C08
+import MtailVerif.Props.C09
 #print axioms MtailVerif.C08.key_shape
 #print axioms MtailVerif.C08.encode_injective
+#print axioms MtailVerif.C08.encode_injective_any
+#print axioms MtailVerif.C09.same_datum_iff_equal_tuple
+#print axioms MtailVerif.C09.frame_model
